@@ -30,7 +30,9 @@ CHECKS = {
              "tape-chosen await points, full-duplex steps; checked: delivery only to the exchange named by the "
              "message, exchange creation only by eligible initiator messages, answers to unknown exchanges dropped "
              "silently, and bounded liveness after faults stop (traffic dies down, RX/TX slots free, unclaimed "
-             "exchanges closed, a probe request per live session is served).",
+             "exchanges closed, a probe request per live session is served). Third family: a node without any responder "
+             "(pure initiator) receives unsolicited reliable and unreliable messages; its own requests seconds later must "
+             "still be answered (the unaccepted messages do not occupy its single RX slot for good).",
         design="DESIGN.md §4 C10",
         technique="deterministic simulation with fault injection: schedule/cancellation/fault search, invariants + bounded-liveness oracle",
     ),
@@ -77,7 +79,10 @@ CHECKS["C07"] = dict(
          "and fresh (resumed) CASE before and after another controller is commissioned into the re-used fabric index. Removal family: "
          "RemoveFabric placed at a tape-chosen millisecond inside the victim's read traffic and CASE handshakes, then the index is re-used. "
          "Oracles: behavioural probes (old credentials never work again, other fabrics keep working) plus invariants on every 100 ms device "
-         "probe (no live session / resumption record for a missing fabric or predating the current owner of its index), no panic.",
+         "probe (no live session / resumption record for a missing fabric or predating the current owner of its index), no panic. Third family: a "
+         "committed fabric with a live CASE session and steady reads next to a fabric staged by another commissioner, rolled back by the timer (requests "
+         "of the committed fabric arriving around the expiry instant) or by RevokeCommissioning from the committed fabric's administrator: no CASE session "
+         "of the untouched fabric ends.",
     design="DESIGN.md §4 C07",
     technique="deterministic simulation with fault injection: seeded placement of rollback/removal vs. traffic, network faults, schedule deviations; invariants + old-credential probes",
 )
@@ -86,8 +91,11 @@ CHECKS["C08"] = dict(
     text="Full commissioning of a real device by a real Commissioner with one fault plan per run: KvBlobStore error / crash-before / crash-after at "
          "mutating store operation k (every k of the history is hit many times), crash between polls at microsecond resolution, second crash "
          "during recovery, plus light network faults; 200 s for restarts and fail-safe expiry; then the device state (fabric table, fail-safe, "
-         "sessions) and the store must agree and be either the pre-arm or the committed state. Limits: Ethernet device (network credentials "
-         "not exercised); the legal command order only (the out-of-order command matrix of the statement is not generated).",
+         "sessions) and the store must agree and be either the pre-arm or the committed state. Further families: an administrator arms the fail-safe "
+         "over CASE, rewrites its fabric's ACL, and the fail-safe ends by CommissioningComplete / time-out / ArmFailSafe(0) / device restart (the ACL is "
+         "the new one only after a completion, also across a later restart); while a commissioner holds a fail-safe armed over PASE, the administrator "
+         "of another fabric sends ArmFailSafe(30) / ArmFailSafe(0) / CommissioningComplete over CASE (refused, nothing changes). Limits: Ethernet device "
+         "(network credentials not exercised); the full out-of-order command matrix of the statement is sampled only through these scenarios.",
     design="DESIGN.md §4 C08",
     technique="deterministic simulation with fault injection: crash/KV-error enumeration over the store operations of a commissioning history + seeded crash instants",
     note=" Known limit: two-key (fabric + networks) atomicity of a wireless device is not simulated.",
@@ -96,8 +104,10 @@ CHECKS["C11"] = dict(
     level="fault_enumeration",
     text="Same world as C08. Oracles: a commissioning that was acknowledged to the commissioner survives every crash/restart (fabric table, ACL, "
          "store) and the device is reachable again over a fresh CASE session once faults stop; start-up never fails; nothing of an "
-         "unacknowledged attempt is half-present. Limits: the writes 'outside a fail-safe' (ACL/group/binding/label writes), factory reset and "
-         "resumption-blob corruption listed in the statement are not generated yet.",
+         "unacknowledged attempt is half-present. Further family: two commissioned fabrics, then a confirmed ACL write (optionally while a third "
+         "commissioner holds a fail-safe over PASE) or RemoveFabric(1) by fabric 2 (hole in the fabric indices), a crash 0.3-3 s after the confirmation, "
+         "restart: the change is there, both / the remaining fabric load, the remaining administrator is served. Limits: group / binding / label writes, "
+         "factory reset and resumption-blob corruption listed in the statement are not generated.",
     design="DESIGN.md §4 C11",
     technique="deterministic simulation with fault injection: crash/KV-error enumeration + restart, durability oracle over acknowledged operations",
 )
@@ -167,7 +177,10 @@ CHECKS["C03"] = dict(
          "before or after the genuine one. Oracles: every such datagram gets a transport verdict of 'not authentic / no session' and makes no session "
          "classify a counter (receive window untouched, no exchange created); applications only ever receive content their true peer submitted on that "
          "exchange, step and direction; every genuine datagram decodes under the session keys with the harness's independent AES-CCM codec to exactly what "
-         "the peer's exchange received; session keys at the end are the established ones. Limit: group sessions are not exercised.",
+         "the peer's exchange received; session keys at the end are the established ones. In a third of the runs the nodes share a real fabric with "
+         "four sibling groups on one key set and exchange group data messages (source node id and destination group id in the header); the forgeries then "
+         "also hit those optional header fields and the multicast datagrams. Limit: MCSP (group control messages) is not exercised; the tap cross-decode "
+         "covers unicast sessions only.",
     design="DESIGN.md §4 C03",
     technique="deterministic simulation with fault injection: seeded search over traffic x per-datagram forgery (corruption, transplant, reflection, misrouting) x schedules; transport-verdict and application-history oracles",
 )
@@ -177,8 +190,8 @@ CHECKS["C01"] = dict(
     text="Real device commissioned by controller X; the device is crashed/restarted 2-5 times so that X runs new CASE handshakes (resumption first, "
          "full Sigma1/2/3 after fallback, persisted resumption cache) while an on-path adversary mutates (bit/byte/truncate/extend), "
          "replays/substitutes, drops, duplicates and delays the handshake datagrams; controller Y with its own CA and the same node id keeps "
-         "attempting CASE. Oracles: device CASE sessions only for X's identity and an existing fabric (every 100 ms probe), session pairs hold "
-         "crossed-equal keys, Y never served, X served again once faults stop. Limit: certificate-chain invalidity classes are not generated "
+         "attempting CASE. Oracles: device CASE sessions only for X's identity and an existing fabric (every 100 ms probe), session pairs (matched by "
+         "session ids and addresses, device vs. controller, on every probe and at the end) hold crossed-equal keys, Y never served, X served again once faults stop. Limit: certificate-chain invalidity classes are not generated "
          "(chain predicate = C19, pure function).",
     design="DESIGN.md §4 C01",
     technique="deterministic simulation with fault injection: seeded on-path mutation/replay/loss + crash/restart of the responder, session-agreement invariants",
@@ -189,7 +202,10 @@ CHECKS["C02"] = dict(
          "(up to 25 wrong attempts), full commissioning or PASE only, initiators abandoned (task cancelled) at a tape-chosen microsecond, device "
          "handlers cancelled, on-path mutation/replay of handshake datagrams, loss/dup/delay. Invariants on every 100 ms probe: a PASE session "
          "exists only for a peer that knows the passcode, commissionable advertisement iff window open, failure counter never above 20; wrong "
-         "passcode never completes; 21+ failed proofs revoke the window.",
+         "passcode never completes; 21+ failed proofs revoke the window. Further families: a commissioner that knows the passcode whose Pake3 "
+         "confirmation is corrupted on the path 21-24 times (no session; window revoked after 20 failed proofs); the administrator revokes the window "
+         "within a few network latencies of another commissioner's handshake, device probed every 100 us (no PASE session appears after the window was "
+         "seen closed). Limit: enhanced windows (other verifiers) are not generated.",
     design="DESIGN.md §4 C02",
     technique="deterministic simulation with fault injection: seeded interleaving of initiators, cancellation points, on-path mutation; per-step invariants",
 )
